@@ -87,6 +87,11 @@ type c20Recorder struct {
 	nextID   int
 	fired    int
 	sentinel chan int
+	// slow callbacks (burst part): the holdAt[name]-th callback on that name reports on
+	// heldCh and does not return before releaseCh is closed.
+	holdAt    map[string]int
+	heldCh    chan string
+	releaseCh chan struct{}
 }
 
 var c20rec = &c20Recorder{sentinel: make(chan int, 1024)}
@@ -100,6 +105,9 @@ func (rec *c20Recorder) reset(panicAt map[string]map[int]bool) {
 	rec.panicAt = panicAt
 	rec.nextID = 0
 	rec.fired = 0
+	rec.holdAt = nil
+	rec.heldCh = make(chan string, 16)
+	rec.releaseCh = make(chan struct{})
 	for {
 		select {
 		case <-rec.sentinel:
@@ -139,12 +147,40 @@ func (rec *c20Recorder) idOf(b *c20Base) int {
 	return b.id
 }
 
-// record notes one lifecycle callback and tells whether the script wants it to panic.
+// setHold scripts one slow callback: the k-th callback on the name blocks until release().
+func (rec *c20Recorder) setHold(name string, k int) {
+	rec.mu.Lock()
+	rec.holdAt = map[string]int{name: k}
+	rec.mu.Unlock()
+}
+
+// release lets the held callback (and any later one) return.  Idempotent per case.
+func (rec *c20Recorder) release() {
+	rec.mu.Lock()
+	defer rec.mu.Unlock()
+	select {
+	case <-rec.releaseCh:
+	default:
+		close(rec.releaseCh)
+	}
+}
+
+// record notes one lifecycle callback and tells whether the script wants it to panic.  A
+// callback scripted to be slow is recorded first (the call has happened) and then blocks,
+// outside the recorder's lock, until the harness releases it.
 func (rec *c20Recorder) record(op, kind string, b *c20Base, spec *Spec, prev Object) bool {
+	panicked, wait := rec.record1(op, kind, b, spec, prev)
+	if wait != nil {
+		<-wait
+	}
+	return panicked
+}
+
+func (rec *c20Recorder) record1(op, kind string, b *c20Base, spec *Spec, prev Object) (bool, chan struct{}) {
 	rec.mu.Lock()
 	defer rec.mu.Unlock()
 	if rec.frozen {
-		return false
+		return false, nil
 	}
 	e := c20Event{Op: op, Inst: b, Kind: kind}
 	e.InstID = rec.idOf(b)
@@ -168,7 +204,11 @@ func (rec *c20Recorder) record(op, kind string, b *c20Base, spec *Spec, prev Obj
 		rec.fired++
 	}
 	rec.events = append(rec.events, e)
-	return e.Panicked
+	if k, ok := rec.holdAt[e.Name]; ok && k == rec.perName[e.Name] {
+		rec.heldCh <- op
+		return e.Panicked, rec.releaseCh
+	}
+	return e.Panicked, nil
 }
 
 func (b *c20Base) c20base() *c20Base { return b }
@@ -284,6 +324,9 @@ type c20Rig struct {
 	ch     chan map[string]string
 	prefix string
 	seq    int
+	// gates (burst part only): variant of each c20GateNames object of the traffic-gate
+	// category in the snapshots to come (0 = absent).  Not watched by the Supervisor.
+	gates []int
 }
 
 // c20NewRig builds a real Supervisor (MustNew) on a mocked cluster.  ok=false: watchdog.
@@ -317,6 +360,11 @@ func (rig *c20Rig) config(snap c20Snapshot) map[string]string {
 	for i, st := range snap {
 		if st.Kind != 0 {
 			m[rig.prefix+c20Names[i]] = c20YAML(c20Names[i], c20Kinds[st.Kind], st.Variant)
+		}
+	}
+	for i, v := range rig.gates {
+		if v != 0 {
+			m[rig.prefix+c20GateNames[i]] = c20YAML(c20GateNames[i], c20KindGate, v)
 		}
 	}
 	m[rig.prefix+c20SentinelName] = c20YAML(c20SentinelName, c20KindSentinel, rig.seq)
@@ -595,7 +643,7 @@ type c20View struct {
 func c20ViewOf(entities map[string]*ObjectEntity) map[string]c20View {
 	out := map[string]c20View{}
 	for name, e := range entities {
-		if name == c20SentinelName {
+		if name == c20SentinelName || strings.HasPrefix(name, c20GatePrefix) {
 			continue
 		}
 		v := c20View{Kind: e.Spec().Kind()}
